@@ -14,7 +14,7 @@ one() {
   echo "$out" | grep '^VIOLATION' | sed -e "s/^/    $s: /"
 }
 export -f one; export VERIF IDS
-ls -d ${1:-refactorings/C*-r[0-9]} | xargs -P 6 -I{} bash -c 'one {}' > refactorings/MATRIX.raw
+ls -d ${1:-refactorings/C*-r[0-9]} | xargs -P ${PAR:-6} -I{} bash -c 'one {}' > refactorings/MATRIX.raw
 grep -v '^    ' refactorings/MATRIX.raw | sort > refactorings/MATRIX.txt
 echo "---- details ----" >> refactorings/MATRIX.txt
 grep '^    ' refactorings/MATRIX.raw | sort >> refactorings/MATRIX.txt
